@@ -330,8 +330,13 @@ def dtStep (s : St) (c : Cmd) (now bid : Nat) : St × Reply := run (engineStore 
 
 /-! ## histories of the whole stack -/
 
-/-- one call of the whole stack: a command of the redis-style layer, a restart of the service
-    (`Close`; `NewDataTypeService(options)` on the same directory), a `Merge` of the engine -/
+/-- one call of the whole stack: a command of the redis-style layer; a restart of the service
+    (`DataTypeService.Close`, then `NewDataTypeService(options)` on the same directory, under any options); a
+    `Merge` of the engine.  `DataTypeService` keeps its `*bitcask.DB` private, so `Merge` reaches it through
+    `Options.EnableBackgroundMerge` only: `Open` starts a goroutine that calls `db.Merge()` periodically
+    (db.go); here a merge stands BETWEEN two commands (the sequential interleavings; `Merge` running
+    concurrently with writers is the subject of the concurrency properties).  `order` is the order in which
+    Go's map iteration visits the older files, as everywhere in the engine model. -/
 inductive EOp where
   | cmd (c : Cmd) (now bid : Nat)
   | restart (cfg : Cfg)
